@@ -98,10 +98,12 @@ class TabularPowercurve(Powercurve):
                 np.interp(energy_kwh, self._charging_energy_kwh, self._charging_rate_kw)
             )  # kilowatt
             charge_power_kw = min(veh_kw_rate, power_kw)  # kilowatt
-            kwh = charge_power_kw * (self.step_size_seconds * SECONDS_TO_HOURS)  # kilowatt-hours
+            # the last sub-step is cut to what remains of the requested duration
+            step_seconds = min(self.step_size_seconds, duration_seconds - t)
+            kwh = charge_power_kw * (step_seconds * SECONDS_TO_HOURS)  # kilowatt-hours
 
             energy_kwh += kwh
 
-            t += self.step_size_seconds
+            t += step_seconds
 
         return energy_kwh, t
